@@ -17,7 +17,7 @@ use vcommon::arg_or;
 
 use crate::keyspace::decode_set;
 
-async fn round(group: &KeyspaceGroup<MemStore>, name: String, k: u64, yields: u64) -> (Vec<u64>, Vec<u64>) {
+async fn round(group: &KeyspaceGroup<MemStore>, name: String, k: u64, yields: u64, base: u64) -> (Vec<u64>, Vec<u64>, u64) {
     let mut tasks = vec![];
     for t in 0..k {
         let group = group.clone();
@@ -28,7 +28,7 @@ async fn round(group: &KeyspaceGroup<MemStore>, name: String, k: u64, yields: u6
             }
             let ks = group.get_or_create_keyspace(&name).await;
             let ts = HLCTimestamp::new(Duration::from_secs(100 + t), 0, (t % 200) as u8 + 1);
-            let doc = Document::new(1000 + t, ts, format!("task-{t}").into_bytes());
+            let doc = Document::new(base + t, ts, format!("task-{t}").into_bytes());
             let ok = ks.send(Set { source: 0, doc, ctx: None, _marker: PhantomData::<MemStore> }).await.is_ok();
             (t, ok)
         }));
@@ -37,16 +37,18 @@ async fn round(group: &KeyspaceGroup<MemStore>, name: String, k: u64, yields: u6
     for t in tasks {
         let (id, ok) = t.await.expect("task");
         if ok {
-            acked.push(1000 + id);
+            acked.push(base + id);
         }
     }
     // a later lookup: the state peers would synchronise against
     let ks = group.get_or_create_keyspace(&name).await;
     let set = decode_set(&ks.send(Serialize).await.expect("serialize"));
-    let mut fin: Vec<u64> = (0..k).map(|t| 1000 + t).filter(|id| set.get(id).is_some()).collect();
+    let mut fin: Vec<u64> = (0..k).map(|t| base + t).filter(|id| set.get(id).is_some()).collect();
     fin.sort();
     acked.sort();
-    (acked, fin)
+    // documents of another keyspace's tasks that ended up in this keyspace's set
+    let foreign = set.verif_project().entries.iter().filter(|e| e.0 < base || e.0 >= base + k).count() as u64;
+    (acked, fin, foreign)
 }
 
 async fn rounds(rt_name: &str, n: u64, out: &mut impl Write) -> u64 {
@@ -56,12 +58,23 @@ async fn rounds(rt_name: &str, n: u64, out: &mut impl Write) -> u64 {
         let k = 2 + r % 7;
         let yields = r % 4;
         let name = format!("{rt_name}-fresh-{r}");
+        // a sibling keyspace whose name is related to the first one's as a string (names are all the group can tell keyspaces
+        // by) is used for the first time by other tasks in the same round
+        let sibling = match r % 5 {
+            0 => format!("{name} "),
+            1 => name.to_uppercase(),
+            2 => format!("{name}-"),
+            3 => format!("{name}-kv"),
+            _ => format!(" {name}"),
+        };
         datacake_crdt::verif::start_recording();
-        let (acked, fin) = round(&group, name.clone(), k, yields).await;
+        let ((acked, fin, foreign), (acked2, fin2, foreign2)) =
+            tokio::join!(round(&group, name.clone(), k, yields, 1000), round(&group, sibling.clone(), k, (yields + 1) % 4, 2000));
         let evs = datacake_crdt::verif::take_events();
-        let installs = evs.iter().filter(|e| e.contains("\"ks_install\"") && e.contains(&format!("\"{name}\""))).count();
-        writeln!(out, "{}", json!({"round": r, "runtime": rt_name, "tasks": k, "stagger": yields, "acked": acked, "final": fin, "installs": installs})).unwrap();
-        events += 1;
+        let installs_of = |n: &str| evs.iter().filter(|e| e.contains("\"ks_install\"") && e.contains(&format!("{:?}", n))).count();
+        writeln!(out, "{}", json!({"round": r, "runtime": rt_name, "tasks": k, "stagger": yields, "acked": acked, "final": fin, "foreign": foreign, "installs": installs_of(&name)})).unwrap();
+        writeln!(out, "{}", json!({"round": r, "runtime": rt_name, "tasks": k, "stagger": yields, "acked": acked2, "final": fin2, "foreign": foreign2, "installs": installs_of(&sibling), "sibling": true})).unwrap();
+        events += 2;
     }
     events
 }
